@@ -1,4 +1,5 @@
 import KyupyVerif.Model.Stil
+import KyupyVerif.Model.StilText
 /-! Driver extension for C18: evaluates the STIL model.
 
 request : `stil <fn> <mode> <circ> <groups> <chains> <calls> <nxt>`
@@ -84,7 +85,74 @@ def showPats (ps : List Pat) : String :=
   "ok " ++ "|".intercalate (ps.map fun p =>
     ";".intercalate [showDict p.load, showDict p.launch, showDict p.capture, showDict p.unload])
 
+/-! ### text level: `stilparse <pct-encoded text>` → `syntax` | `<ok|raise> <tree> <groups> <chains> <calls>`.
+tree = lark's parse tree with all tokens kept, `rule[child,..]`, leaves percent-encoded token texts (only `[A-Za-z0-9_]`
+unencoded); groups / chains / calls = the dictionaries of `StilFile.groupsD/chainsD/callsD`: `name:m,m|..`,
+`name:si:so:mid,..|..` (`~` for a missing port), `name:k=v,..|..`; `-` for an empty list, `~` for "no SignalGroups block". -/
+namespace Text
+open KV.StilText
+def enc (cs : List Char) : String :=
+  if cs.isEmpty then "%" else
+  String.ofList (cs.flatMap fun c =>
+    if c.isAlphanum || c == '_' then [c] else ['%', hexDigit (c.toNat / 16 % 16), hexDigit (c.toNat % 16)])
+def node (name : String) (ch : List String) : String := name ++ "[" ++ ",".intercalate ch ++ "]"
+def kw (k : Kw) : String := enc k.chars
+def ignTok : IgnTok → String
+  | .opn => kw .Lbrace
+  | .cls => kw .Rbrace
+  | .nob t => enc t
+def ign (ig : List IgnTok) : List String := [kw .Lbrace] ++ ig.map ignTok ++ [kw .Rbrace]
+def quoted (q : Txt) : String := node "quoted" [enc q]
+def group (g : Group) : String :=
+  node "signal_group" ([quoted g.name, kw .Equal, kw .Quote, quoted g.first] ++ g.more.flatMap (fun q => [kw .Plus, quoted q])
+    ++ [kw .Quote] ++ (match g.ign with | some ig => ign ig | none => []) ++ (if g.semi then [kw .Semi] else []))
+def chainItem : ChainItem → String
+  | .length n => node "scan_length" [kw .Scanlength, enc n, kw .Semi]
+  | .inv n => node "scan_inversion" [kw .Scaninversion, enc n, kw .Semi]
+  | .scanIn q => node "scan_in" [kw .Scanin, quoted q, kw .Semi]
+  | .scanOut q => node "scan_out" [kw .Scanout, quoted q, kw .Semi]
+  | .clock q => node "scan_master_clock" [kw .Scanmasterclock, quoted q, kw .Semi]
+  | .cells cs => node "scan_cells" ([kw .Scancells] ++ cs.map (fun | .cell q => quoted q | .bang => kw .Bang) ++ [kw .Semi])
+def chain (c : KV.StilText.Chain) : String :=
+  node "scan_chain" ([kw .Scanchain, quoted c.name, kw .Lbrace] ++ c.items.map chainItem ++ [kw .Rbrace])
+def patItem : PatItem → String
+  | .label q => node "label" [quoted q, kw .Colon]
+  | .w q => node "w" [kw .W, quoted q, kw .Semi]
+  | .macro_ q => node "macro" [kw .Macro, quoted q, kw .Semi]
+  | .c ig => node "c" (kw .C :: ign ig)
+  | .ann ig => node "ann" (kw .Ann :: ign ig)
+  | .call n ps => node "call" ([kw .Call, quoted n, kw .Lbrace]
+      ++ ps.map (fun p => node "call_parameter" [quoted p.1, kw .Equal, enc p.2, kw .Semi]) ++ [kw .Rbrace])
+def block : Block → List String
+  | .skip k ig => kw k :: ign ig
+  | .burst q ig => kw .Patternburst :: quoted q :: ign ig
+  | .ukw t => [kw .Userkeywords, enc t]
+  | .groups gs => [node "signal_groups" ([kw .Signalgroups, kw .Lbrace] ++ gs.map group ++ [kw .Rbrace])]
+  | .chains cs => [node "scan_structures" ([kw .Scanstructures, kw .Lbrace] ++ cs.map chain ++ [kw .Rbrace])]
+  | .pattern n its => [node "pattern" ([kw .Pattern, quoted n, kw .Lbrace] ++ its.map patItem ++ [kw .Rbrace])]
+def file (f : StilFile) : String :=
+  node "start" ([kw .Stil, enc f.version] ++ (match f.headIgn with | some ig => ign ig | none => [kw .Semi]) ++ f.blocks.flatMap block)
+def listOr (l : List String) (sep : String) : String := if l.isEmpty then "-" else sep.intercalate l
+def optName : Option Txt → String
+  | some n => enc n
+  | none => "~"
+def handle (args : List String) : String :=
+  match args with
+  | [t] =>
+    match parseTree (pctDecode t.toList) with
+    | none => "syntax"
+    | some f =>
+      let g := match f.groupsD with
+        | none => "~"
+        | some gs => listOr (gs.map fun (g : Txt × List Txt) => enc g.1 ++ ":" ++ listOr (g.2.map enc) ",") "|"
+      let c := listOr (f.chainsD.map fun c => enc c.1 ++ ":" ++ optName c.2.si ++ ":" ++ optName c.2.so ++ ":" ++ listOr (c.2.mid.map enc) ",") "|"
+      let l := listOr (f.callsD.map fun c => enc c.1 ++ ":" ++ listOr (c.2.map fun p => enc p.1 ++ "=" ++ enc p.2) ",") "|"
+      s!"{if f.ok then "ok" else "raise"} {file f} {g} {c} {l}"
+  | _ => "bad-args"
+end Text
+
 def handle (cmd : String) (args : List String) : Option String :=
+  if cmd == "stilparse" then some (Text.handle args) else
   if cmd != "stil" then none else
   match args with
   | [fn, mode, circ, groups, chains, calls, nxt] =>
